@@ -225,6 +225,13 @@ def showState (d : DSt) : String := s!"d{d.s.deleted} n{d.s.m.length}"
 def stepLine (d : DSt) (toks : List String) : DSt × String :=
   match toks with
   | ["new", "default"] => ({ o := ⟨10, 1, 100⟩, s := init }, "ok")   -- `New()` without options
+  -- IEEE specials of the float32 ratio, as what they do to `shouldShrink`: `x < NaN` and `x < -Inf` are false for
+  -- every x (the ratio test never blocks, and `NaN != 0.0` holds) -- the behaviour of a negative ratio;
+  -- `x < +Inf` is true for every finite x (the ratio test always blocks) -- the ratio `1/0` of the fraction model
+  | ["new", "nan", c] | ["new", "-inf", c] =>
+    match c.toInt? with | some c => ({ o := ⟨-1, 1, c⟩, s := init }, "ok") | none => (d, "bad-op")
+  | ["new", "+inf", c] =>
+    match c.toInt? with | some c => ({ o := ⟨1, 0, c⟩, s := init }, "ok") | none => (d, "bad-op")
   | ["new", a, b, c] =>
     match a.toInt?, b.toNat?, c.toInt? with
     | some a, some b, some c => if b = 0 then (d, "bad-op") else ({ o := ⟨a, b, c⟩, s := init }, "ok")
